@@ -1349,6 +1349,21 @@ class Engine(object):
                 return [(st, VInt(r))]
             if m in ("find", "rfind") and 1 <= len(args) <= 3 and isinstance(args[0], VStr):
                 return [(st, self.str_find(m, s, args, st))]
+            if m in ("partition", "rpartition") and len(args) == 1 and isinstance(args[0], VStr) and z3.is_string_value(args[0].z) and args[0].z.as_string():
+                # s.partition(sep) / s.rpartition(sep) for a constant non-empty separator, as a word equation
+                sep = args[0].z
+                sep_s = sep.as_string()
+                a_, b_ = fresh(m + ".head", S), fresh(m + ".tail", S)
+                mid = fresh(m + ".sep", S)
+                has = z3.Contains(s, sep)
+                if m == "partition":
+                    first_only = z3.Not(z3.Contains(z3.Concat(a_, z3.StringVal(sep_s[:-1])), sep))
+                    st.assume(z3.If(has, z3.And(s == z3.Concat(a_, sep, b_), mid == sep, first_only), z3.And(a_ == s, mid == EMPTY, b_ == EMPTY)))
+                else:
+                    last_only = z3.Not(z3.Contains(z3.Concat(z3.StringVal(sep_s[1:]), b_), sep))
+                    st.assume(z3.If(has, z3.And(s == z3.Concat(a_, sep, b_), mid == sep, last_only), z3.And(a_ == EMPTY, mid == EMPTY, b_ == s)))
+                self.assumptions.add("stdlib spec: s.partition(sep) / s.rpartition(sep) split at the first / last occurrence of a constant separator (word equation); (s, '', '') / ('', '', s) when absent")
+                return [(st, VTuple([VStr(a_), VStr(mid), VStr(b_)]))]
             if m == "format" and z3.is_string_value(s):
                 kw2 = dict(kwargs)
                 for i_, a_ in enumerate(args):
@@ -1673,11 +1688,15 @@ class Engine(object):
         if name == "appended":
             o = lst(args[0])
             return st.alloc(self.list_append(o, args[1], st))
-        if name in ("startswith", "endswith", "contains", "strip", "isspace", "substr"):
+        if name in ("startswith", "endswith", "contains", "strip", "rstrip", "lstrip", "isspace", "substr"):
             # an operand the engine does not know to be a string: an arbitrary string (only sound under a premise that rules it out)
             args = [a if not isinstance(a, (VOpaque, VNone)) else VStr(fresh("unknown_str", S)) for a in args]
         if name == "strip":
             return VStr(py_strip(args[0].z))
+        if name == "rstrip":
+            return VStr(py_rstrip(args[0].z))
+        if name == "lstrip":
+            return VStr(py_lstrip(args[0].z))
         if name == "isspace":
             return VBool(py_isspace(args[0].z))
         if name == "startswith":
@@ -2389,7 +2408,7 @@ class Engine(object):
                 bound.add(n.arg)
             elif isinstance(n, ast.ExceptHandler) and n.name:
                 bound.add(n.name)
-        ghosts = {"result", "done", "k", "v0", "True", "False", "None"} | set(SPEC_FUNCS) | set(contract.closure) | set(contract.bind)
+        ghosts = {"result", "done", "k", "v0", "True", "False", "None"} | set(SPEC_FUNCS) | set(contract.closure) | set(contract.bind) | set(getattr(contract, "ghost_params", ()))
         is_block = getattr(contract, "block", None) is not None
         if is_block:
             ghosts |= set(contract.params)  # block contracts declare their state (incl. ghost variables) themselves
@@ -2441,6 +2460,9 @@ class Engine(object):
         # closure bindings of a nested function under contract
         for n_, kind in contract.closure.items():
             st.bind(n_, self.fresh_value(kind, n_, st))
+        # specification-only (ghost) variables
+        for n_ in getattr(contract, "ghost_params", ()):
+            st.bind(n_, self.fresh_value(contract.params.get(n_, "str"), n_, st))
         st.old = (dict(st.frames[0]), dict(st.heap))
         for r in contract.requires:
             st.assume(self.eval_spec(r, st))
@@ -2472,8 +2494,9 @@ class Contract(object):
 
     def __init__(self, qual, params=None, requires=(), ensures=(), modifies=(), result="opaque", loops=None,
                  bind=None, closure=None, local_kinds=None, decorators=None, pure_results=None, trusted=None, src=None, deterministic=False, paths=None, block=None,
-                 block_exit=None):
+                 block_exit=None, ghost_params=()):
         self.qual = qual
+        self.ghost_params = tuple(ghost_params)  # specification-only variables (declared in `params`, bound fresh, not in the code)
         self.params = params or {}
         self.requires, self.ensures, self.modifies = list(requires), list(ensures), list(modifies)
         self.result = result
